@@ -128,7 +128,16 @@ def oracle(case, obs):
     ov = 1 - 2 * eps
     if [float(t[0]), float(t[1])] != obs['start']['time'] or float(eps) != obs['start']['eps']:
         return f'start-values.{lab}', f'start {obs["start"]} expected time {t} eps {eps}'
+    nan_seen = False
+    prev_norm = 1.0
     for k, (c, o) in enumerate(zip(case['calls'], obs['calls'])):
+        # run_evolution resets psi.norm when preserve_norm (default: real dt) -- checked before anything else
+        pn = case.get('preserve_norm')
+        preserve = pn if pn is not None else (not c.get('imag'))
+        if case['engine'] != 'TEBDimag' and preserve and o['norm'] != prev_norm:
+            return (f'norm-not-preserved.{lab}', f'call {k}: psi.norm {prev_norm!r} -> {o["norm"]!r} with '
+                    f'preserve_norm={pn} and dt={call_dt(c)}')
+        prev_norm = o['norm']
         step = Fraction(*c['dt']) * c['N']
         if c.get('imag'):
             t[1] -= step
@@ -138,6 +147,12 @@ def oracle(case, obs):
             return (f'evolved_time.{lab}',
                     f'call {k} (N_steps={c["N"]}, dt={call_dt(c)}): evolved_time={o["time"]} expected '
                     f'start + sum N*dt = {[float(t[0]), float(t[1])]}')
+        if any(e != e for e, _ in o['errors']) or nan_seen:
+            # QR-TEBD with compute_err=False hands NaN errors to the engine: the accumulated error must be NaN, too
+            nan_seen = True
+            if o['eps'] == o['eps'] and any(True for _ in o['errors']):
+                return f'trunc_err.{lab}.nan-errors-lost', f'call {k}: errors are NaN but trunc_err.eps = {o["eps"]!r}'
+            continue
         s_call = sum((Fraction(e) for e, _ in o['errors']), Fraction(0))
         before = eps
         eps += s_call
@@ -161,9 +176,6 @@ def oracle(case, obs):
             return f'trunc_err.ov.{lab}', f'call {k}: ov={o["ov"]!r} expected product {float(ov)!r}'
         if o.get('charge') != obs.get('charge0'):
             return f'charge.{lab}', f'call {k}: total charge {o.get("charge")} was {obs.get("charge0")}'
-        if not any(cc.get('imag') for cc in case['calls'][:k + 1]) and o['norm'] != 1.0:
-            # real-time run_evolution resets psi.norm to its old value (preserve_norm defaults to True)
-            return f'norm-not-preserved.{lab}', f'call {k}: psi.norm = {o["norm"]!r} after a real-time run()'
         # the truncations inside MPO.apply (SVD / zip_up compression) sum to what apply returns
         if case['engine'] == 'ExpMPO' and case.get('compression') in ('SVD', 'zip_up') and not case.get('inject'):
             s_in = sum(Fraction(x) for x in o['inner'])
@@ -181,6 +193,8 @@ def oracle(case, obs):
 def model_request(case, obs):
     if case['engine'] in ('RUE', 'TEBDimag'):
         return None   # oracle only (RandomUnitaryEvolution.evolve / TEBDEngine.update_imag are not in the Lean model)
+    if any(e != e for o in obs['calls'] for e, _ in o['errors']):
+        return None   # NaN errors (compute_err=False) are not rationals
     L = obs['L']
     if case['engine'] in ('TEBD', 'QRTEBD'):
         kind = dict(t='tebd', order=str(case['order']), L=L, finite=obs['finite'])
@@ -249,7 +263,7 @@ def gen_case(rng, idx, thorough=False):
     bc = 'finite'
     if engine in ('TEBD', 'QRTEBD'):
         kind = 'nn'
-        if engine == 'TEBD' and rng.random() < 0.15:
+        if rng.random() < 0.15:
             bc, L = 'infinite', rng.choice([2, 4])
     else:
         kind = rng.choice(['lr', 'lr', 'nn'])
@@ -288,13 +302,42 @@ def gen_case(rng, idx, thorough=False):
         case['model'].pop('J2', None), case['model'].pop('J3', None)
         case.pop('pre_steps', None)
         return case
+    case['preserve_norm'] = rng.choice([None, None, None, True, False])
+    extra = {}
     if engine in ('TEBD', 'QRTEBD'):
         case['order'] = rng.choice([1, 2, 4, '4_opt'])
+        if engine == 'QRTEBD':
+            # option branches of QRBasedTEBDEngine (_expansion_rate, eig-based SVD, error not computed)
+            extra['cbe_expand'] = rng.choice([0.1, 0.5, 1.0, 10.0])
+            extra['cbe_min_block_increase'] = rng.choice([1, 2, 4])
+            if rng.random() < 0.35:
+                extra['cbe_expand_0'] = rng.choice([1.0, 2.0, 10.0])
+            if rng.random() < 0.25:
+                extra['use_eig_based_svd'] = True
+            if rng.random() < 0.2 and not case['inject']:
+                extra['compute_err'] = False
+        elif rng.random() < 0.2 and bc == 'finite':
+            extra['E_offset'] = [rng.choice([0.0, 0.25, -0.5]) for _ in range(L)]
     elif engine == 'ExpMPO':
-        case['order'] = rng.choice([1, 2])
-        case['approximation'] = rng.choice(['I', 'II'])
-        case['compression'] = rng.choice(['SVD', 'zip_up', 'variational'])
-    elif engine == 'TDVP1':
+        # every approximation x compression x order combination comes up in turn
+        combos = [(a, c, o) for o in (2, 1) for c in ('SVD', 'zip_up', 'variational', 'variationalQR') for a in ('II', 'I')]
+        case['approximation'], case['compression'], case['order'] = combos[(idx // 5) % len(combos)] if idx < 80 \
+            else rng.choice(combos)
+    elif engine in ('TDVP2', 'TDVP1'):
+        r2 = rng.random()
+        if r2 < 0.15:
+            extra['lanczos_params'] = dict(N_max=20, reortho=False)
+        elif r2 < 0.3:
+            extra['lanczos_params'] = dict(N_max=20, hermitian=False)
+        elif r2 < 0.4:
+            extra['lanczos_params'] = dict(N_min=rng.choice([3, 5]), N_max=20, reortho=True, P_tol=1e-12)
+        elif r2 < 0.45:
+            extra['lanczos_options'] = dict(N_max=20, reortho=True)
+        if rng.random() < 0.15 and engine == 'TDVP2':
+            case['model']['explicit_plus_hc'] = True
+    if extra:
+        case['extra_options'] = extra
+    if engine == 'TDVP1':
         case['pre_steps'] = 2
         case['model']['kind'] = 'nn'   # pre-evolution uses TEBD
         case['model'].pop('J2', None), case['model'].pop('J3', None)
@@ -398,7 +441,20 @@ def evaluate(cases, use_model=True, pool=None, do_shrink=True):
     return res
 
 
+class _NoPool:
+    """in-process stand-in (C14_NO_POOL=1: used to measure line coverage of the anchored source)"""
+
+    def map(self, f, xs, chunksize=1):
+        return [f(x) for x in xs]
+
+    def terminate(self):
+        pass
+
+
 def make_pool(n=8):
+    import os
+    if os.environ.get('C14_NO_POOL') == '1':
+        return _NoPool()
     return mp.get_context('fork').Pool(n)
 
 
